@@ -7,6 +7,7 @@ and is normally a thin instance of TieCheck below.
 import concurrent.futures as cf
 import fcntl
 import json
+import hashlib
 import os
 import re
 import shutil
@@ -83,7 +84,9 @@ def sh(cmd, cwd=None, env=None, timeout=3600):
 def build_harness(cmd, tags="verif", race=False):
     """go build harness/cmd/<cmd> against REPO's working tree. Returns (path, log) or (None, log)."""
     os.makedirs(BIN, exist_ok=True)
-    out = os.path.join(BIN, cmd + ("-race" if race else ""))
+    # one binary per tree under test: checks of different scratch trees may run side by side
+    key = "" if os.path.abspath(REPO) == "/repo" else "-" + hashlib.md5(os.path.abspath(REPO).encode()).hexdigest()[:8]
+    out = os.path.join(BIN, cmd + ("-race" if race else "") + key)
     args = ["go", "build", "-tags", tags, "-o", out]
     if race:
         args.insert(2, "-race")
@@ -91,9 +94,9 @@ def build_harness(cmd, tags="verif", race=False):
         if os.path.abspath(REPO) != "/repo":
             # alternate module file pointing at the scratch tree under test
             mod = open(os.path.join(HARNESS, "go.mod")).read().replace("=> /repo", "=> " + os.path.abspath(REPO))
-            alt = os.path.join(WORKROOT, "alt.mod")
+            alt = os.path.join(WORKROOT, "alt%s.mod" % key)
             open(alt, "w").write(mod)
-            shutil.copy(os.path.join(HARNESS, "go.sum"), os.path.join(WORKROOT, "alt.sum"))
+            shutil.copy(os.path.join(HARNESS, "go.sum"), os.path.join(WORKROOT, "alt%s.sum" % key))
             args += ["-modfile", alt]
         args.append("./cmd/" + cmd)
         rc, o = sh(args, cwd=HARNESS, env=go_env(), timeout=900)
